@@ -2,6 +2,7 @@
    (model Transport.v of transport/graphsync/graphsync.go; graphsync itself is not modelled). *)
 From Coq Require Import List NArith ZArith String Bool.
 From DT Require Import GenStatus GenEvent GenMsgType FsmTypes GenFsm Fsm View Msg Transport C16Proofs C16Store.
+From DT Require C16Names.
 Import ListNotations.
 
 Theorem C16_event_channel_is_request_owner :
@@ -118,3 +119,39 @@ Theorem C16_requests_use_channel_store :
        In (OAct (AUseStore k)) (snd (tstep s (GIncomingRequest p rid (Some m)) orc))).
 Proof. exact requests_use_channel_store. Qed.
 Print Assumptions C16_requests_use_channel_store.
+
+(* a data-transfer message that arrives with a graphsync callback (new request, request update,
+   response) is handed to the events handler only for the channel it names: the message's own
+   transfer id, the authenticated remote peer and this node, in the roles the message's kind
+   implies (a request: the peer initiated; a response: this node did).  A message naming another
+   transfer than the one that owns the graphsync request it rides on is reported for no channel. *)
+Theorem C16_reported_message_names_its_channel :
+  forall s i orc h,
+    In h (calls (snd (tstep s i orc))) ->
+    C16Names.names_channel (ts_self s) h /\
+    match C16Names.carrier_peer i with Some p => C16Names.from_peer p h | None => True end.
+Proof. exact C16Names.reported_message_names_its_channel. Qed.
+Print Assumptions C16_reported_message_names_its_channel.
+
+(* a graphsync request the transport refused (it carried no data-transfer message we accept: the
+   events handler answered with an error, or it carried a cancel) is terminated and is bound to no
+   channel ... *)
+Theorem C16_refused_request_is_not_bound :
+  forall s p rid om orc,
+    C16Names.refused om orc ->
+    ts_reqmap (fst (tstep s (GIncomingRequest p rid om) orc)) = ts_reqmap s /\
+    In (OAct ATerminate) (snd (tstep s (GIncomingRequest p rid om) orc)) \/ om = None.
+Proof. exact C16Names.refused_request_is_not_bound. Qed.
+Print Assumptions C16_refused_request_is_not_bound.
+
+(* ... so whatever graphsync reports for it afterwards (its blocks, its end, updates, errors)
+   reaches no channel and changes nothing *)
+Theorem C16_refused_request_stays_silent :
+  forall s p rid om orc i orc',
+    C16Names.refused om orc -> om <> None ->
+    rlookup rid (ts_reqmap s) = None ->
+    request_keyed i = Some rid ->
+    let s1 := fst (tstep s (GIncomingRequest p rid om) orc) in
+    tstep s1 i orc' = (s1, []).
+Proof. exact C16Names.refused_request_stays_silent. Qed.
+Print Assumptions C16_refused_request_stays_silent.
